@@ -163,11 +163,14 @@ pub fn parse_stylua_toml(bytes: &[u8]) -> Result<Config, String> {
 pub struct EcFile {
     pub root: bool,
     pub sections: Vec<(String, Vec<(String, String)>)>,
+    /// a line that is neither a comment, a section header nor `key = value` with both sides
+    /// non-empty: the file is malformed
+    pub invalid_line: Option<String>,
 }
 
 pub fn parse_editorconfig(bytes: &[u8]) -> EcFile {
     let text = String::from_utf8_lossy(bytes);
-    let mut f = EcFile { root: false, sections: Vec::new() };
+    let mut f = EcFile { root: false, sections: Vec::new(), invalid_line: None };
     for raw in text.lines() {
         let line = raw.trim();
         if line.is_empty() || line.starts_with('#') || line.starts_with(';') {
@@ -176,6 +179,13 @@ pub fn parse_editorconfig(bytes: &[u8]) -> EcFile {
         if line.starts_with('[') && line.ends_with(']') {
             f.sections.push((line[1..line.len() - 1].to_string(), Vec::new()));
             continue;
+        }
+        match line.split_once('=') {
+            Some((k, v)) if !k.trim().is_empty() && !v.trim().is_empty() => {}
+            _ => {
+                f.invalid_line.get_or_insert(line.to_string());
+                continue;
+            }
         }
         if let Some((k, v)) = line.split_once('=') {
             let (k, v) = (k.trim().to_ascii_lowercase(), v.trim().to_string());
@@ -290,13 +300,16 @@ fn file_name(p: &str) -> &str {
     p.rsplit('/').next().unwrap_or(p)
 }
 
-fn editorconfig_for(world: &World, dir: &str, name: &str, base: Config) -> Config {
+fn editorconfig_for(world: &World, dir: &str, name: &str, base: Config) -> Result<Config, String> {
     // collect files from `dir` upwards until root = true
     let mut chain: Vec<EcFile> = Vec::new();
     let mut cur = Some(dir.to_string());
     while let Some(d) = cur {
         if let Some(bytes) = world.files.get(&join(&d, ".editorconfig")) {
             let f = parse_editorconfig(bytes);
+            if let Some(l) = &f.invalid_line {
+                return Err(format!("{}: invalid line {l:?}", join(&d, ".editorconfig")));
+            }
             let root = f.root;
             chain.push(f);
             if root {
@@ -319,7 +332,7 @@ fn editorconfig_for(world: &World, dir: &str, name: &str, base: Config) -> Confi
     if !props.is_empty() {
         apply_editorconfig(&mut cfg, &props);
     }
-    cfg
+    Ok(cfg)
 }
 
 // ---------------------------------------------------------------------------------------------
@@ -422,11 +435,15 @@ pub fn resolve_config(world: &World, opts: &Opts, dir: &str, name: &str, faulted
     }
     if !opts.no_editorconfig {
         let base = Config::default();
-        let ec = editorconfig_for(world, dir, name, base);
-        let found = format!("{:?}", ec) != format!("{:?}", base);
-        return Resolved {
-            config: Ok(apply_cli_overrides(ec, opts)),
-            source: if found { ConfigSource::EditorConfig } else { ConfigSource::Defaults },
+        return match editorconfig_for(world, dir, name, base) {
+            Err(e) => Resolved { config: Err(e), source: ConfigSource::EditorConfig },
+            Ok(ec) => {
+                let found = format!("{:?}", ec) != format!("{:?}", base);
+                Resolved {
+                    config: Ok(apply_cli_overrides(ec, opts)),
+                    source: if found { ConfigSource::EditorConfig } else { ConfigSource::Defaults },
+                }
+            }
         };
     }
     Resolved { config: Ok(apply_cli_overrides(Config::default(), opts)), source: ConfigSource::Defaults }
@@ -860,6 +877,24 @@ pub fn format_with(cfg: Config, bytes: &[u8], opts: &Opts) -> FileExpect {
         Ok(t) => t,
         Err(_) => return FileExpect::Fail("not valid UTF-8".into()),
     };
+    // "cannot be parsed" is decided by the parser itself, not by what `format_code` chooses to
+    // do with a broken input: a library change that starts formatting unparseable text must not
+    // move the reference with it
+    {
+        let version: full_moon::LuaVersion = cfg.syntax.into();
+        let parse_ok = std::thread::scope(|s| {
+            std::thread::Builder::new()
+                .stack_size(8 << 20)
+                .spawn_scoped(s, || std::panic::catch_unwind(|| full_moon::parse_fallible(text, version).into_result().is_ok()))
+                .expect("spawn parser thread")
+                .join()
+                .unwrap_or(Ok(false))
+                .unwrap_or(false)
+        });
+        if !parse_ok {
+            return FileExpect::Fail("error parsing (full_moon)".into());
+        }
+    }
     let range = if opts.range_start.is_some() || opts.range_end.is_some() {
         Some(Range::from_values(opts.range_start, opts.range_end))
     } else {
@@ -962,7 +997,9 @@ pub fn expected(world: &World, opts: &Opts, stdin: Option<&[u8]>, faults: &[simp
                     }
                     if let FileExpect::Changed(_) = fe {
                         let no_write_perm = world.mode_of(&real).map(|m| m & 0o002 == 0).unwrap_or(false);
-                        if !opts.check && (fault_on(faults, "fs.write.open", &f).is_some() || no_write_perm) {
+                        if !opts.check
+                            && (fault_on(faults, "fs.write.open", &f).is_some() || fault_on(faults, "fs.rename", &f).is_some() || no_write_perm)
+                        {
                             fe = FileExpect::Fail("read-only".into());
                         }
                     }
